@@ -23,7 +23,9 @@ CLAIMED.update({
             "decided as an inductive step on the real receive path (Protocol._on_connection_data_received -> ByteQueue -> "
             "HsmsProtocol._process_received_data): from every buffer state 'first j bytes of the pending frame' and every next segment "
             "length m, exactly the frames completed by the segment are queued, in order, field-equal, and the buffer again holds exactly "
-            "the undelivered prefix. One step from every invariant state covers every partition of every frame sequence.",
+            "the undelivered prefix. One step from every invariant state covers every partition of every frame sequence. undecodable_frame: "
+            "a frame with any undefined SType or a too small length field in front of a well-formed frame, at every cut, does not hold "
+            "the well-formed frame back.",
             "Trusted: CrossHair + chx patches, z3, oracles/refe37.py, the Park stub for Condition.wait_for (a blocked receiver = re-entry; "
             "justified by the asserted 'nothing consumed before the park'), dispatcher replaced by a recording sink. Outside: bodies > 2-3 "
             "symbolic bytes, segments completing > 2 frames, real thread races between append and the receiver thread.",
